@@ -46,7 +46,7 @@ Lemma spin_subchunks f : get_map_subchunks (S (S f)) Orig [3] (-1) 1 = Ok [(0, 1
 Proof.
   unfold get_map_subchunks. cbn [subchunks_loop].
   change (0 <? len [3]) with true. cbv iota.
-  assert (H : next_map_subchunk [3] 0 (-1) 1 = Ok 1) by (vm_compute; reflexivity).
+  assert (H : next_map_subchunk_v Orig [3] 0 (-1) 1 = Ok 1) by (vm_compute; reflexivity).
   rewrite H. cbn [bind]. change (1 <? len [3]) with false. cbv iota. reflexivity.
 Qed.
 
@@ -54,7 +54,7 @@ Lemma spin_subchunk kfuel :
   istream_subchunk kfuel Orig spin_idx spin_val [3] (-1) 1 1 (mk_ist 0 0 0 [0] [0] [0] []) (0, 1) = OutOfFuel.
 Proof.
   unfold istream_subchunk. cbn [fst snd].
-  assert (H1 : get_valid_value_extents [3] 0 1 (-1) = Ok (3, 3)) by (vm_compute; reflexivity).
+  assert (H1 : get_valid_value_extents_v Orig [3] 0 1 (-1) = Ok (3, 3)) by (vm_compute; reflexivity).
   rewrite H1. cbn [bind]. change (3 =? -1) with false. cbv iota.
   assert (H2 : np_slice spin_idx 3 (3 + 2) = [6; 10]) by (vm_compute; reflexivity).
   rewrite H2.
@@ -82,4 +82,26 @@ Qed.
 (* after fix-F-C12b the same input raises *)
 Lemma indexed_too_long_raises :
   ordered_map_valid_indexed_stream 20 Fixed spin_idx spin_val [3] (-1) 1 1 = Raise E_ValueError.
+Proof. vm_compute. reflexivity. Qed.
+
+(* F-C02f (the code after the C04 fixes, version Fixed0): a map whose valid entries are in range but not
+   non-decreasing — the right-hand join map of keys [0;0] x [0;0] — is read outside the value window
+   taken from the first and the last valid entry; the code after fix-F-C02f (Fixed) gives the answer *)
+Lemma stream_nonmonotone_witness :
+  ordered_map_valid_stream 0 0 10 Fixed0 [30;40] [0;1;0;1] (-1) 3 = OOB 123 /\
+  ordered_map_valid_stream 0 0 10 Fixed [30;40] [0;1;0;1] (-1) 3 = Ok [30;40;30;40] /\
+  map_spec 0 [30;40] (-1) [0;1;0;1] = [30;40;30;40].
+Proof. vm_compute. repeat split. Qed.
+
+(* indexed strings 'a','bb' through [1;0]: the old window is indices[1:2] *)
+Lemma indexed_nonmonotone_witness :
+  ordered_map_valid_indexed_stream 10 Fixed0 [0;1;3] [97;98;98] [1;0] (-1) 2 4 = Raise E_IndexError /\
+  ordered_map_valid_indexed_stream 10 Fixed [0;1;3] [97;98;98] [1;0] (-1) 2 4 = Ok ([0;2;3], [98;98;97]) /\
+  indexed_spec [0;1;3] [97;98;98] (-1) [1;0] = ([0;2;3], [98;98;97]).
+Proof. vm_compute. repeat split. Qed.
+
+(* value sub-chunks revisited backwards: 'aaaa','bbbb' with a value buffer of 4 bytes, map [1;0;1;0] *)
+Lemma indexed_seek_back_witness :
+  ordered_map_valid_indexed_stream 10 Fixed [0;4;8] [97;97;97;97;98;98;98;98] [1;0;1;0] (-1) 4 1
+  = Ok ([0;4;8;12;16], [98;98;98;98;97;97;97;97;98;98;98;98;97;97;97;97]).
 Proof. vm_compute. reflexivity. Qed.
